@@ -1,4 +1,5 @@
 import SphericalVerif.Lemmas.Grid
+import SphericalVerif.Lemmas.Modes
 /-! C18 — copying and pickling preserve data and metadata, independently.
 
     Property theorems only (helpers: `Lemmas/Grid.lean`).
@@ -122,5 +123,146 @@ theorem grid_finalize_edge_cases (h : Heap) (self : AObj) :
 example : (⟨.ndarray, 0, none⟩ : AObj).md = none := rfl
 
 -- MODES SECTION BELOW
+
+/-! ## MODES SECTION
+
+    Statements are about the model of `Modes.__array_finalize__`, `Modes.__reduce__`, `Modes.__setstate__` in
+    `Model/Modes.lean` (section "copy / pickle hooks"): a heap `Model.Modes.Heap` in which metadata dicts, the
+    mutable objects stored as their values, and data buffers have identities.  `h.Live obj`: the identities of
+    `obj` are allocated in `h`.  `sameValue h v h' v'`: equal as Python values (same atom, or mutable objects of
+    equal content).  The correspondence harness `vlib/glue_modes.py` (lines `copy <route> …`) checks on real
+    `spherical.Modes` objects, for every route and pickle protocol: class, shared memory, `is`-identity of the
+    dicts and of a nested value, and every key / value of both dicts afterwards. -/
+
+/-- Every copy route — `obj.copy()`, `copy.copy`, `copy.deepcopy`, `np.array(copy=True, subok=True)`, pickle with any
+    protocol — returns a Modes whose data is a NEW buffer with equal content and whose `_metadata` is a NEW dict in
+    which every key of the original (`spin_weight`, `ell_max`, `multiplication_truncator`, anything else) has an
+    equal value. -/
+theorem modes_copy_preserves (r : Model.Modes.Route) (h : Model.Modes.Heap) (obj : Model.Modes.PyObj)
+    (hc : obj.cls = Model.Modes.Cls.modes) (hl : h.Live obj) :
+    (Model.Modes.copyRoute r h obj).2.cls = Model.Modes.Cls.modes
+    ∧ (Model.Modes.copyRoute r h obj).2.buf ≠ obj.buf
+    ∧ (Model.Modes.copyRoute r h obj).1.bufs (Model.Modes.copyRoute r h obj).2.buf = h.bufs obj.buf
+    ∧ (Model.Modes.copyRoute r h obj).2.dict ≠ obj.dict
+    ∧ ∀ k v, h.lookup obj.dict k = some v →
+        ∃ v', (Model.Modes.copyRoute r h obj).1.lookup (Model.Modes.copyRoute r h obj).2.dict k = some v'
+          ∧ Model.Modes.sameValue h v (Model.Modes.copyRoute r h obj).1 v' := by
+  obtain ⟨hb, hd, hrf⟩ := hl
+  by_cases hr : ∃ p, r = .pickle p
+  · obtain ⟨p, rfl⟩ := hr
+    obtain ⟨e, b1, _, _, _, lk, _, _⟩ := Lemmas.Modes.pickle_spec h obj ⟨hb, hd, hrf⟩
+    have e' : (Model.Modes.copyRoute (.pickle p) h obj) = Model.Modes.pickleRoundTrip h obj := rfl
+    rw [e', e]
+    refine ⟨hc, by show h.nextBuf ≠ obj.buf; omega, b1, by show h.nextDict + 1 ≠ obj.dict; omega, ?_⟩
+    intro k v hk
+    obtain ⟨v', l', r'⟩ := lk k v hk
+    exact ⟨v', l', r'.sameValue⟩
+  · obtain ⟨e, d1, _, hv, b1, _⟩ := Lemmas.Modes.finalize_route_spec r (fun p hp => hr ⟨p, hp⟩) h obj
+    rw [e]
+    refine ⟨rfl, by show h.nextBuf ≠ obj.buf; omega, b1, by show h.nextDict ≠ obj.dict; omega, ?_⟩
+    intro k v hk
+    refine ⟨v, ?_, Lemmas.Modes.sameValue_refl_of_vals _ _ _ hv⟩
+    show List.lookup k ((Model.Modes.copyRoute r h obj).1.dicts h.nextDict) = some v
+    rw [d1, Lemmas.Modes.lookup_ensureKeys _ _ (by unfold Model.Modes.Heap.lookup at hk; rw [hk]; rfl)]
+    exact hk
+
+/-- a live Modes (spin weight -2, `ell_max` 3, truncator `max`, a nested mutable value) -/
+example : ∃ (h : Model.Modes.Heap) (obj : Model.Modes.PyObj), obj.cls = Model.Modes.Cls.modes ∧ h.Live obj :=
+  ⟨⟨fun i => if i = 0 then [("spin_weight", .int (-2)), ("ell_max", .int 3), ("multiplication_truncator", .fn "max"),
+        ("note", .ref 0)] else [], fun _ => [7, 8], fun _ p => p, 1, 1, 1⟩, ⟨.modes, 0, 0⟩, rfl,
+    by decide, by decide, by intro k id hm; simp at hm; rcases hm with ⟨_, rfl⟩; decide⟩
+
+/-- Copying does not disturb the original, and afterwards the two sides are independent: setting a key of either
+    `_metadata` dict, or overwriting either data buffer, is invisible on the other side. -/
+theorem modes_copy_independent (r : Model.Modes.Route) (h : Model.Modes.Heap) (obj : Model.Modes.PyObj)
+    (hl : h.Live obj) :
+    -- the original after the copy was made
+    (Model.Modes.copyRoute r h obj).1.dicts obj.dict = h.dicts obj.dict
+    ∧ (Model.Modes.copyRoute r h obj).1.bufs obj.buf = h.bufs obj.buf
+    ∧ (∀ i, i < h.nextVal → (Model.Modes.copyRoute r h obj).1.vals i = h.vals i)
+    -- mutate the copy: the original is unaffected
+    ∧ (∀ k v k', ((Model.Modes.copyRoute r h obj).1.setKey (Model.Modes.copyRoute r h obj).2.dict k v).lookup obj.dict k'
+          = h.lookup obj.dict k')
+    ∧ (∀ x, ((Model.Modes.copyRoute r h obj).1.fill (Model.Modes.copyRoute r h obj).2.buf x).bufs obj.buf
+          = h.bufs obj.buf)
+    -- mutate the original: the copy is unaffected
+    ∧ (∀ k v k', ((Model.Modes.copyRoute r h obj).1.setKey obj.dict k v).lookup (Model.Modes.copyRoute r h obj).2.dict k'
+          = (Model.Modes.copyRoute r h obj).1.lookup (Model.Modes.copyRoute r h obj).2.dict k')
+    ∧ (∀ x, ((Model.Modes.copyRoute r h obj).1.fill obj.buf x).bufs (Model.Modes.copyRoute r h obj).2.buf
+          = h.bufs obj.buf) := by
+  obtain ⟨hb, hd, hrf⟩ := hl
+  have key : (Model.Modes.copyRoute r h obj).2.dict ≠ obj.dict ∧ (Model.Modes.copyRoute r h obj).2.buf ≠ obj.buf
+      ∧ (Model.Modes.copyRoute r h obj).1.dicts obj.dict = h.dicts obj.dict
+      ∧ (Model.Modes.copyRoute r h obj).1.bufs obj.buf = h.bufs obj.buf
+      ∧ (Model.Modes.copyRoute r h obj).1.bufs (Model.Modes.copyRoute r h obj).2.buf = h.bufs obj.buf
+      ∧ (∀ i, i < h.nextVal → (Model.Modes.copyRoute r h obj).1.vals i = h.vals i) := by
+    by_cases hr : ∃ p, r = .pickle p
+    · obtain ⟨p, rfl⟩ := hr
+      obtain ⟨e, b1, b2, d2, _, _, _, vv⟩ := Lemmas.Modes.pickle_spec h obj ⟨hb, hd, hrf⟩
+      have e' : (Model.Modes.copyRoute (.pickle p) h obj) = Model.Modes.pickleRoundTrip h obj := rfl
+      rw [e', e]
+      exact ⟨by show h.nextDict + 1 ≠ obj.dict; omega, by show h.nextBuf ≠ obj.buf; omega, d2 _ hd,
+        b2 _ (by omega), b1, vv⟩
+    · obtain ⟨e, _, d2, hv, b1, b2⟩ := Lemmas.Modes.finalize_route_spec r (fun p hp => hr ⟨p, hp⟩) h obj
+      rw [e]
+      exact ⟨by show h.nextDict ≠ obj.dict; omega, by show h.nextBuf ≠ obj.buf; omega, d2 _ (by omega),
+        b2 _ (by omega), b1, fun i _ => by rw [hv]⟩
+  obtain ⟨nd, nb, od, ob, cb, ov⟩ := key
+  refine ⟨od, ob, ov, ?_, ?_, ?_, ?_⟩
+  · intro k v k'
+    rw [Lemmas.Modes.setKey_lookup_other_dict _ _ _ _ _ _ (Ne.symm nd)]
+    unfold Model.Modes.Heap.lookup
+    rw [od]
+  · intro x
+    simp only [Model.Modes.Heap.fill, if_neg (Ne.symm nb)]
+    exact ob
+  · intro k v k'
+    exact Lemmas.Modes.setKey_lookup_other_dict _ _ _ _ _ _ nd
+  · intro x
+    simp only [Model.Modes.Heap.fill, if_neg nb]
+    exact cb
+
+example : ∃ (h : Model.Modes.Heap) (obj : Model.Modes.PyObj), h.Live obj :=
+  ⟨⟨fun _ => [("spin_weight", .int 1), ("ell_max", .int 2)], fun _ => [], fun _ p => p, 1, 0, 1⟩, ⟨.modes, 0, 0⟩,
+    by decide, by decide, by intro k id hm; simp at hm⟩
+
+/-- Pickling is a DEEP copy of the metadata: every mutable value of the unpickled Modes' dict is a new object
+    (`__setstate__` deep-copies the unpickled dict), so mutating one in place cannot change any value that
+    existed before. -/
+theorem modes_pickle_is_deep (p : Nat) (h : Model.Modes.Heap) (obj : Model.Modes.PyObj) (hl : h.Live obj) :
+    ∀ k id, (k, Model.Modes.Val.ref id) ∈
+        (Model.Modes.copyRoute (.pickle p) h obj).1.dicts (Model.Modes.copyRoute (.pickle p) h obj).2.dict →
+      h.nextVal ≤ id
+      ∧ ∀ x i, i < h.nextVal → ((Model.Modes.copyRoute (.pickle p) h obj).1.mutate id x).vals i = h.vals i := by
+  obtain ⟨e, _, _, _, _, _, fr, vv⟩ := Lemmas.Modes.pickle_spec h obj hl
+  have e' : (Model.Modes.copyRoute (.pickle p) h obj) = Model.Modes.pickleRoundTrip h obj := rfl
+  rw [e', e]
+  intro k id hm
+  have hf := fr k id hm
+  refine ⟨hf, fun x i hi => ?_⟩
+  simp only [Model.Modes.Heap.mutate, if_neg (show i ≠ id by omega)]
+  exact vv i hi
+
+/-- The four non-pickle routes — including `copy.deepcopy` — go through `__array_finalize__`, whose `copy.copy` of the
+    dict is SHALLOW: a mutable value of the original's dict is, in the copy's dict, the very same object, so
+    mutating it in place through either side is visible on both.  (Recorded because `copy.deepcopy(modes)` is not
+    deep on metadata values; top-level keys and the data are independent by `modes_copy_independent`.) -/
+theorem modes_finalize_routes_shallow (r : Model.Modes.Route) (hr : ∀ p, r ≠ .pickle p) (h : Model.Modes.Heap)
+    (obj : Model.Modes.PyObj) (k : String) (id : Nat) (hk : h.lookup obj.dict k = some (.ref id)) :
+    (Model.Modes.copyRoute r h obj).1.lookup (Model.Modes.copyRoute r h obj).2.dict k = some (.ref id)
+    ∧ ∀ x, ((Model.Modes.copyRoute r h obj).1.mutate id x).vals id = h.vals id ++ [x] := by
+  obtain ⟨e, d1, _, hv, _, _⟩ := Lemmas.Modes.finalize_route_spec r hr h obj
+  rw [e]
+  constructor
+  · show List.lookup k ((Model.Modes.copyRoute r h obj).1.dicts h.nextDict) = _
+    rw [d1, Lemmas.Modes.lookup_ensureKeys _ _ (by unfold Model.Modes.Heap.lookup at hk; rw [hk]; rfl)]
+    exact hk
+  · intro x
+    simp [Model.Modes.Heap.mutate, hv]
+
+example : ∀ p, Model.Modes.Route.deepCopy ≠ .pickle p := by intro p; exact Model.Modes.Route.noConfusion
+example : ∃ (h : Model.Modes.Heap) (obj : Model.Modes.PyObj) (k : String) (id : Nat),
+    h.lookup obj.dict k = some (.ref id) :=
+  ⟨⟨fun _ => [("note", .ref 0)], fun _ => [], fun _ p => p, 1, 1, 1⟩, ⟨.modes, 0, 0⟩, "note", 0, rfl⟩
 
 end C18
